@@ -23,6 +23,19 @@ def mapPath (c : PCfg) (path : Str) : Str :=
 def upstreamUrl (c : PCfg) (path query : Str) : Str :=
   c.upstream ++ mapPath c path ++ (if query.isEmpty then [] else '?' :: query)
 
+/-- `str.rstrip("/")` (what `ProxyHandler.__init__` does to the configured upstream) -/
+def rstripSlash : Str → Str
+  | [] => []
+  | c :: cs => if (rstripSlash cs).isEmpty && c == '/' then [] else c :: rstripSlash cs
+
+/-- the prefix stripping as a function of the raw configuration values -/
+def mapPathRaw (pre : Str) (strip : Bool) (path : Str) : Str := mapPath ⟨[], [], pre, strip⟩ path
+
+/-- `ProxyHandler._handle_async`, URL construction from the raw configuration:
+    `upstream.rstrip("/") + path' + ("?" + query if query else "")` -/
+def proxyUrl (upstreamRaw pre : Str) (strip : Bool) (path query : Str) : Str :=
+  rstripSlash upstreamRaw ++ mapPathRaw pre strip path ++ (if query.isEmpty then [] else '?' :: query)
+
 theorem mapPath_slash (c : PCfg) (path : Str) (h : path.head? = some '/') : (mapPath c path).head? = some '/' := by
   unfold mapPath
   split
